@@ -48,7 +48,7 @@ def replay (init : St) (ops : List Op) : String :=
       match step? st op with
       | none => unwords (acc.reverse ++ [s!"reject@{i}", render op])
       | some st' =>
-        if st'.panicked then unwords (acc.reverse ++ [s!"panic@{i}", render op])
+        if st'.panicked || st'.toPanic then unwords (acc.reverse ++ [s!"panic@{i}", render op])
         else go st' (i + 1) (render op :: acc) rest
   go init 0 [] ops
 
